@@ -27,12 +27,13 @@ const (
 )
 
 type memDag struct {
-	mu     sync.Mutex
-	blocks map[cid.Cid][]byte
-	order  []cid.Cid // write order (first write of each cid)
-	writes []cid.Cid // every Add call
-	gets   []cid.Cid // every Get call, in call order
-	fault  map[cid.Cid]faultKind
+	mu      sync.Mutex
+	blocks  map[cid.Cid][]byte
+	order   []cid.Cid // write order (first write of each cid)
+	writes  []cid.Cid // every Add call
+	gets    []cid.Cid // every Get call, in call order
+	removed []cid.Cid // every Remove call
+	fault   map[cid.Cid]faultKind
 	// onAdd is called (outside the lock) after a block was stored
 	onAdd func(c cid.Cid)
 	// gate, when set, is called by Get before it answers; it may block (forced schedules)
@@ -145,7 +146,14 @@ func decodeBlock(c cid.Cid, data []byte) (ipld.Node, error) {
 func (m *memDag) GetMany(ctx context.Context, cs []cid.Cid) <-chan *ipld.NodeOption {
 	panic("GetMany not used by go-ipfs-log")
 }
-func (m *memDag) Remove(ctx context.Context, c cid.Cid) error        { panic("Remove not used") }
+func (m *memDag) Remove(ctx context.Context, c cid.Cid) error {
+	// go-ipfs-log never removes blocks; a store that honours Remove lets the checks see it if it does
+	m.mu.Lock()
+	defer m.mu.Unlock()
+	delete(m.blocks, c)
+	m.removed = append(m.removed, c)
+	return nil
+}
 func (m *memDag) RemoveMany(ctx context.Context, cs []cid.Cid) error { panic("RemoveMany not used") }
 func (m *memDag) Pinning() ipld.NodeAdder                            { return m }
 
